@@ -24,6 +24,10 @@ def _real_batch(batch):
 
 def real_deps(ctx: Ctx, items):
     """items: [(text, full_js, context_key)] -> list of sorted deps or 'EXC:Name' (hang = 'EXC:timeout')"""
+    from sfv.rt.cwldiff import enable_bytecode_cache
+
+    enable_bytecode_cache()
+    import streamflow.cwl.utils  # noqa: F401  (imported once here, inherited by the forked workers)
     size = 20
     batches = [items[i:i + size] for i in range(0, len(items), size)]
     res = [None] * len(batches)
@@ -141,7 +145,7 @@ class C31(Property):
         ]
         for kind, body, pats, order in hand:
             progs.append(("corpus", {"kind": kind, "body": body, "patterns": pats, "order": order}))
-        n = {"quick": 260, "thorough": 3000}[ctx.tier]
+        n = {"quick": 150, "thorough": 3000}[ctx.tier]
         if ctx.mode == "search":
             n *= 2
         for i in range(n):
@@ -161,7 +165,7 @@ class C31(Property):
             routed.append(p["kind"] == "paren" and param_re.match(t[1:]) is not None)
         # parameter references
         prefs = []
-        npref = {"quick": 200, "thorough": 2000}[ctx.tier]
+        npref = {"quick": 120, "thorough": 2000}[ctx.tier]
         fixed = ["$(inputs.a.b)", "$(inputs['a'])", '$(inputs["a b"])', "$(inputs.a.length)", "$(inputs.length)", "$(inputs)",
                  "$(self.a)", "$(inputs[3])", "$(inputs.if)", "$(runtime.cores)"]
         fixed_meta = [("inputs", [("d", "a"), ("d", "b")]), ("inputs", [("k", "a")]), ("inputs", [("k", "a b")]),
